@@ -5,7 +5,7 @@ drv_box ops (layer L3).
 
   box c10 <n> <op> ; <op> ; ...     one history of the application-level machine over objects 0..n-1;
                                      answer: the outcome and a snapshot after every op, joined by " | "
-      ops:  send k.. | fetch k.. | sendFail k.. | fetchFail k.. | back k T|F | drop k | collect | expire j | dO | dP | close
+      ops:  send k.. | fetch k.. | sendFail k.. | fetchFail k.. | back k T|F | drop k | collect | expire j | dO | dOfail j | dP | close
       snapshot:  <outcome> t=<slot>,.. p=<slot>,.. h=<held ids, sorted> r=<ready results> w=<waiters: o|x expired> o=[..] q=[..]
 -/
 namespace Rpyc.Drv
@@ -23,6 +23,7 @@ def parseAOp : List String → Option AOp
   | ["drop", k] => (parseNatChars k.toList).map .drop
   | ["collect"] => some .collect
   | ["expire", j] => (parseNatChars j.toList).map .expire
+  | ["dOfail", j] => (parseNatChars j.toList).map .deliverFail
   | ["dO"] => some .deliverO2P
   | ["dP"] => some .deliverP2O
   | ["close"] => some .close
@@ -44,6 +45,8 @@ def showMsgO : MsgO → String
   | .req ids => "req" ++ String.join (ids.map (fun k => " " ++ toString k))
   | .reply ids kept => "reply" ++ String.join (ids.map (fun k => " " ++ toString k)) ++ (if kept then " T" else " F")
   | .exc _ => "exc"
+  | .recvd ids => "recvd" ++ String.join (ids.map (fun k => " " ++ toString k))
+  | .unrecvd ids _ _ => "unrecvd" ++ String.join (ids.map (fun k => " " ++ toString k))
 
 def showMsgP : MsgP → String
   | .del k n => "del " ++ toString k ++ " " ++ toString n
@@ -54,7 +57,7 @@ def showMsgP : MsgP → String
 
 def showOut : Out → String
   | .ok => "ok" | .empty => "empty" | .keyError => "KeyError" | .disabled => "disabled" | .closed => "closed"
-  | .unsendable => "unsendable"
+  | .unsendable => "unsendable" | .unreceived => "unreceived"
 
 def showAOut : AOut → String
   | .base o => showOut o
